@@ -484,3 +484,45 @@ pub(crate) fn ref_try_read_signed<'a>(data: &'a [u8]) -> Result<(usize, i64), cr
     ref_read_signed(data).ok_or(crate::PackError::InvalidNumber(::leb128::read::Error::Overflow))
 }
 
+
+/// Strings longer than a machine word: 8 ASCII bytes (any values < 0x80) followed by a TAIL of T
+/// arbitrary bytes. String::try_unpack accepts exactly when the tail is valid UTF-8 - a word-at-a-
+/// time ASCII scan (std has one; a "fast path" added here would be another) must not skip the
+/// bytes after the last full word.
+fn string_word_then_tail<const T: usize, const N: usize>() {
+    let mut b: [u8; N] = kani::any();
+    b[0] = (8 + T) as u8;
+    let mut i = 1;
+    while i <= 8 {
+        b[i] &= 0x7f;
+        i += 1;
+    }
+    let tail_ok = valid_utf8(&b[9..]);
+    match <String as RleValue>::try_unpack::<Leb128>(&b) {
+        Ok((used, s)) => {
+            assert!(tail_ok);
+            assert!(used == N && s.len() == 8 + T);
+            assert!(same_bytes(s.as_bytes(), &b[1..]));
+        }
+        Err(e) => {
+            assert!(!tail_ok);
+            std::mem::forget(e);
+        }
+    }
+    kani::cover!(tail_ok && (T == 1 || b[9] >= 0x80));
+    kani::cover!(!tail_ok);
+}
+
+#[kani::proof]
+#[kani::unwind(14)]
+#[kani::stub(alloc::fmt::format, stub_format)]
+fn pack_string_word_then_tail1() {
+    string_word_then_tail::<1, 10>()
+}
+
+#[kani::proof]
+#[kani::unwind(14)]
+#[kani::stub(alloc::fmt::format, stub_format)]
+fn pack_string_word_then_tail2() {
+    string_word_then_tail::<2, 11>()
+}
